@@ -113,9 +113,12 @@ REJECTIONS = [
     ("invalid distance code", "dist-invalid", [LEN_AND_FRIENDS, DISPATCH, FAST, BACK, FAST_BACK], [
         P(rel="Ne", names={"op"}, ops={"BitAnd"}, consts={64, 0}),
     ]),
-    ("invalid distance too far back", "dist-window", [LEN_AND_FRIENDS, DISPATCH, FAST, FAST_BACK], [
+    ("invalid distance too far back", "dist-window", [LEN_AND_FRIENDS, DISPATCH, FAST], [
         P(rel="Lt", lo_calls={"Window::have"}),
     ]),
+    # inflateBack's fast loop: the rejection is reached through either of two tests (window never flushed, or distance larger
+    # than the window), so no single guard dominates it; the two tests are what GUARD/back-fast-distance (C19) decides
+    ("invalid distance too far back", "dist-window-fast-back", [FAST_BACK], []),
     ("invalid distance too far back", "dist-window-back", [BACK], [
         P(rel="Lt", lo_calls={"Window::buffer_size"}, hi_names={"offset"}),
     ]),
